@@ -140,6 +140,31 @@ def check(run, prog, tier):
     with run.part("G1 guards"):
         _guards(run, prog, et)
 
+    # ================================================================== G2 the filter judges the wire header
+    # G1 decides the filter on the *decoded* header fields; "a message with the wrong service id / method id / message type
+    # ... changes nothing" is about the bytes received: each field the filter compares must be the wire field of that name,
+    # decoded exactly (C01's reader table L3) - a decoder that masks or maps a field lets foreign bytes pass as discovery
+    with run.part("G2 filter fields are the wire fields"):
+        from . import C01
+        mr = prog.lookup_method(PROTO, "message_received")
+        msg = P(mr, param_at(mr, 0, "someip_message"))
+        compared = set()
+        for p in engine(prog, InlineOnly(names=(), props=True, max_depth=2)).paths(mr, recv=PROTO):
+            for c, _v, _n, _k in p.conds:
+                for st in subterms(c):
+                    if st[0] == "attr" and st[1] == msg:
+                        compared.add(st[2])
+        compared.discard("payload")
+        sub = report.subrun(C01, "C01", prog, tier, run.seed)
+        n = 0
+        for o in sub.obs:
+            if o.rule == "L3" and "<-position[" in o.construct and o.construct.split(":")[-1].split("<-")[0] in compared | {"protocol_version"}:
+                n += 1
+                run.ob("G2", o.construct, o.ok, o.loc, o.msg, o.detail, o.nontrivial)
+        run.floor("G2", n, 4)
+        run.paths += sub.paths
+        run.abstract_cases += sub.abstract_cases
+
 
 def es_is_sub(es, prog, exc, base):
     from ..sym import ExcHierarchy
